@@ -14,3 +14,11 @@ LEVEL_TEXT = EXPLANATION
 TIMEOUT_MS = {'quick': 20000, 'thorough': 120000}
 MUSTFAIL_PER_FN = {'quick': 1, 'thorough': 6}
 BOUNDED = [laws_bounded('C05-laws', ['basic', 'forms', 'iframe', 'dir', 'ns', 'svghtml', 'plain', 'svg5'], ['core', 'html', 'ns'], nsnames=('none', 'svg', 'default-html'))]
+
+
+def _bt_laws(ctx):
+    from pyvc import bounded_text
+    return bounded_text.text_level_laws(ctx)
+
+
+BOUNDED = BOUNDED + [_bt_laws]
